@@ -147,6 +147,14 @@ def gen_project(rng, nmin=3, nmax=7, features=None):
             r["provideTools"] = {"tool_" + name: {"path": ".", "libs": rng.choice([[], ["."]])}}
         if "provideDeps" in features and r["depends"] and rng.random() < 0.3 and idx:
             r["provideDeps"] = [rng.choice(r["depends"])["name"]]
+        if "passthrough" in features and r["depends"] and idx and rng.random() < 0.5:
+            # a dependency that the recipe only hands on to its users (use: [] + provideDeps): the
+            # recipe keeps one Variant-Id whatever variant of the dependency hangs below it
+            ent = rng.choice(r["depends"])
+            ent["use"] = []
+            ent.pop("forward", None)
+            if ent["name"] not in r["provideDeps"]:
+                r["provideDeps"] = r["provideDeps"] + [ent["name"]]
         if "classes" in features and model["classes"] and rng.random() < 0.5:
             r["inherit"] = [rng.choice(sorted(model["classes"]))]
         if ("include" in features or "include_files" in features) and rng.random() < 0.45:
